@@ -174,6 +174,9 @@ pub fn cmd_text(c: &Cmd, file: &str, known: &[u32]) -> Option<String> {
             13 => format!(r#"open {{"files":["{}"],"sort":{},"collect":{}}}"#, file.replace("trace.dlt", "can.asc"), sort, collect),
             14 => format!(r#"open {{"files":["{}","{}"],"sort":{},"collect":{}}}"#, file, file.replace("trace.dlt", "logcat.txt"), sort, collect),
             15 => format!(r#"open {{"files":["{}"],"sort":{},"collect":{}}}"#, file.replace("trace.dlt", "generic.log"), sort, collect),
+            // two plugins of the same name
+            17 => format!(r#"open {{"files":["{}"],"sort":{},"collect":{},"plugins":[{},{}]}}"#, file, sort, collect, crate::plug::rewrite_cfg(), crate::plug::rewrite_cfg()),
+            18 => format!(r#"open {{"files":["{}"],"sort":{},"collect":{},"plugins":[{{"name":"FileTransfer"}},{{"name":"FileTransfer","keepFLDA":true}}]}}"#, file, sort, collect),
             // the trace inside a zip archive: extraction runs in its own thread before parsing starts
             16 => format!(r#"open {{"files":["{}!/trace.dlt"],"sort":{},"collect":{}}}"#, file.replace("trace.dlt", "trace.zip"), sort, collect),
             _ => format!(r#"open {{"files":["{}"],"plugins":[{{"name":"FileTransfer"}},{{"name":"Rewrite","rewrites":[]}},7]}}"#, file),
